@@ -277,7 +277,7 @@ def main(args):
     rep.assumptions = ASSUMPTIONS
     rep.bounds = {'payload_lengths': lengths, 'alphabets': sorted(set(c[0] + ':' + c[1] for c in configs(tier))),
                   'outside': 'lengths beyond the bound; the unbounded claim of the property is NOT made (see DESIGN.md C06)'}
-    deadline = time.time() + (330 if tier == 'quick' else common.THOROUGH_S)
+    deadline = time.time() + (common.QUICK_S if tier == 'quick' else common.THOROUGH_S)
     lem = {'proved': 0, 'failed': 0, 'cached': 0, 'instances': 0, 'time_s': 0.0, 'unknown': 0}
 
     def progress(done, total, res):
